@@ -13,7 +13,7 @@ func init() {
 	register(&propDef{
 		ID: "C11",
 		Info: propInfo{
-			Technique: "who-may-call + def-use value flow + path analysis + job-status table",
+			Technique:   "who-may-call + def-use value flow + path analysis + job-status table",
 			Explanation: "Decides the library side of 'acknowledge only after processing, at most once, with the right receipt': (R11.1) IAcknowledgeable.Acknowledge is called only in job.ack, ack only in the Close methods, and Close on a dequeued job only in the completion callback, after the worker function (R05.1/R05.2); (R11.2) the argument of setAckId in the dispatcher step is the third result of the DequeueWithAckId call of the same invocation, the ack id field is written only by setAckId and is what Acknowledge receives, setInternalQueue receives the queue the item was dequeued from, and both setters precede the hand-off; (R11.3) ack performs at most one Acknowledge, none for an empty id or a closed job, and a refused acknowledgement is returned as an error before anything is released (close table); (R11.4) no path of the dispatcher step acknowledges or closes: unprocessed items stay unacknowledged; (R11.5) persistent/distributed Add reports true only where the adapter's Enqueue returned true, and start's initial notify drains what the adapter already holds.",
 			NotDecided:  []string{"the adapter's own bookkeeping and crash points inside it", "that concurrent Close calls cannot acknowledge twice (the ack precedes the compare-and-swap that elects the one closer; the loser has already acknowledged — noted, an adapter-level idempotence question)"},
 			Assumptions: []string{"an adapter re-delivers unacknowledged items after a crash"},
@@ -23,7 +23,7 @@ func init() {
 	register(&propDef{
 		ID: "C12",
 		Info: propInfo{
-			Technique: "table extraction (status writer/reader tables, wire struct) + path analysis",
+			Technique:   "table extraction (status writer/reader tables, wire struct) + path analysis",
 			Explanation: "(R12.1) the status writer table (Status(): constant → string) and reader table (parseToJob: string → constant stored) are inverse bijections on all five states, the reader's default branch returns an error; (R12.2) Json() marshals and parseToJob unmarshals the same named struct, whose three fields have distinct non-empty JSON names, Json fills Id/Payload from the job's id/data and parseToJob passes view.Payload and view.Id to the constructor; (R12.3) in the four persistent/distributed Add the encode-error test precedes Enqueue, its true branch returns false without enqueuing, and what is enqueued is the Json() result; (R12.4) decode and cast failures of the dispatcher step return a non-nil error, the dispatcher reports it without blocking and stays in its loop (R03.4), and decoded jobs get their queue attached before the hand-off.",
 			NotDecided:  []string{"encoding/json round-trip equality for every payload value", "ordering behind a bad entry (adapter)"},
 			Assumptions: []string{"encoding/json honours struct tags"},
@@ -33,7 +33,7 @@ func init() {
 	register(&propDef{
 		ID: "C13",
 		Info: propInfo{
-			Technique: "sibling agreement of the distributed binders + path analysis of the subscription handler",
+			Technique:   "sibling agreement of the distributed binders + path analysis of the subscription handler",
 			Explanation: "(R13.1) both distributed binders perform, on every path, exactly one Register of the adapter, one start and one Subscribe of the worker's own handler, in the effective order Register → start → Subscribe (deferred calls unfolded); (R13.2) the handler, evaluated with its action bound to \"enqueued\", counts exactly one submission and notifies; bound to any other action it changes no metric; the distributed Add itself touches no worker; (R13.3) a failed dequeue (another consumer won) is an error return of the step, not a loop exit (R03.4); (R13.4) completion re-notifies and the dispatcher loops while pending > 0 (R03.1, R03.4).",
 			NotDecided:  []string{"that an item is executed by exactly one of k consumers (the adapter's atomic dequeue)", "delivery of notifications by the adapter"},
 			Assumptions: []string{"the adapter's Dequeue hands each item to one consumer"},
